@@ -35,7 +35,7 @@ PROPS = {"C15": dict(
     ],
     regen=["extract:statefacts"],
     components=["accessors"],
-    modes=[dict(name="c15", stateful=True, max_shrinks=4)],
+    modes=[dict(name="c15", stateful=True, max_shrinks=4, tie_results=[r"^genfail$"])],
     custom=_diagnose,
     level="proof",
     trusted_base=TB_COMMON + [
